@@ -604,7 +604,7 @@ func runCheck(e entry, tier string, replay string) int {
 		"known_findings_seen": knownSeen,
 		"build_s":             round1(buildS),
 	}
-	if m.States > 0 || m.Transitions > 0 || e.Level == "model_checking" {
+	if m.States > 0 && m.Transitions > 0 {
 		cov["states"] = m.States
 		cov["transitions"] = m.Transitions
 		cov["traces_validated_against_impl"] = m.Traces
